@@ -975,7 +975,8 @@ impl SubRule {
         }
 
         if match_begin.is_none() {
-            if let ParseElement::SyllBound = states.last().unwrap().kind {
+            // the end-of-word position has no segment, so only boundary items can match there
+            if states.iter().all(|s| matches!(s.kind, ParseElement::WordBound | ParseElement::SyllBound)) && matches!(states.last().unwrap().kind, ParseElement::SyllBound) {
                 let sy = word.syllables.len() - 1;
                 let sg = word.syllables[sy].segments.len();
                 Ok(Some(SegPos::new(sy, sg)))
@@ -1025,7 +1026,8 @@ impl SubRule {
         }
 
         if match_begin.is_none() {
-            if let ParseElement::WordBound | ParseElement::SyllBound | ParseElement::Structure(..) = states.first().unwrap().kind {
+            // the end-of-word position has no segment, so only boundary items can match there
+            if states.iter().all(|s| matches!(s.kind, ParseElement::WordBound | ParseElement::SyllBound)) {
                 let sy = word.syllables.len() - 1;
                 let sg = word.syllables[sy].segments.len();
                 Ok(Some(SegPos::new(sy, sg)))
